@@ -67,6 +67,9 @@ pub mod capture {
     /// (item name, cranelift IR text) in the order of definition
     pub static CLIF: Mutex<Vec<(String, String)>> = Mutex::new(Vec::new());
 
+    /// (item name, Debug rendering of its LIR instructions, one per line)
+    pub static LIR: Mutex<Vec<(String, Vec<String>)>> = Mutex::new(Vec::new());
+
     /// (data id, bytes)
     pub static DATA: Mutex<Vec<(u32, Vec<u8>)>> = Mutex::new(Vec::new());
 
@@ -76,6 +79,10 @@ pub mod capture {
 
     pub fn clif(name: &str, text: String) {
         CLIF.lock().unwrap().push((name.to_string(), text));
+    }
+
+    pub fn lir(name: &str, instructions: Vec<String>) {
+        LIR.lock().unwrap().push((name.to_string(), instructions));
     }
 
     pub fn data(id: u32, bytes: &[u8]) {
@@ -88,6 +95,7 @@ pub mod capture {
 
     pub fn reset() {
         CLIF.lock().unwrap().clear();
+        LIR.lock().unwrap().clear();
         DATA.lock().unwrap().clear();
         SYMBOLS.lock().unwrap().clear();
     }
